@@ -39,6 +39,7 @@ ASSUMPTIONS = [
 ]
 
 OPS = ['get', 'iterate', 'keys', 'assign', 'delete']
+OPS_ALL = OPS + ['render']       # 'render': an operation added by the user with register_op()
 
 
 def budget(tier):
@@ -142,14 +143,15 @@ def gen_case(seed, tier):
 
     def reg_op(tname=None, reg=None, exact=None, hops=None):
         tagn[0] += 1
-        hops = hops or rng.sample(OPS, rng.randint(1, 2))
+        hops = hops or rng.sample(OPS_ALL if custom_op[0] else OPS, rng.randint(1, 2))
         return {'op': 'register', 'reg': reg or rng.choice(regs_avail), 'type': tname or rng.choice(regable),
                 'handlers': {o: ('False' if rng.random() < 0.12 else f'h{tagn[0]}{o[0]}') for o in hops},
                 'exact': (rng.random() < 0.25) if exact is None else exact}
 
     def lookup(reg=None, cls=None, lop=None):
         return {'op': 'lookup', 'reg': reg or rng.choice(regs_avail), 'cls': cls or rng.choice(names),
-                'lop': lop or rng.choice(OPS)}
+                'lop': lop or rng.choice(OPS_ALL if custom_op[0] else OPS)}
+    custom_op = [rng.random() < 0.2]      # does this history use an operation added with register_op()?
     template = rng.random() < 0.4
     if template:
         t = rng.choice(['mixin-order', 'structural-sibling', 'exact-then-sub', 'reregister', 'builtin-sub', 'switched-off'])
@@ -206,7 +208,13 @@ def gen_case(seed, tier):
         elif r < 0.85:
             ops.append(lookup())
         elif r < 0.92:
-            ops.append({'op': 'drop', 'reg': rng.choice(regs_avail)})
+            if custom_op[0] and rng.random() < 0.5:
+                # (re-)declare an operation: exact=True only says that the types known SO FAR are
+                # taken exactly; later non-exact registrations cover their subclasses as ever
+                ops.append({'op': 'register_op', 'reg': rng.choice(regs_avail),
+                            'name': 'render', 'exact': rng.random() < 0.6})
+            else:
+                ops.append({'op': 'drop', 'reg': rng.choice(regs_avail)})
         else:
             gid = f'g{len(regs_avail)}'
             ops.append({'op': 'new_glommer', 'id': gid, 'defaults': rng.random() < 0.6})
@@ -346,7 +354,7 @@ def battery(W, regs, names):
     out = {}
     for reg in regs:
         for cn in names:
-            for lop in OPS:
+            for lop in OPS_ALL:
                 out[f'{reg}/{cn}/{lop}'] = W.observe(reg, cn, lop)
     return out
 
@@ -393,6 +401,12 @@ def run_history(case, ops, set_perm=None, lookups=True, drop_before_final=False,
                 continue
             W.register(op['reg'], op['type'], op['handlers'], op['exact'])
             st('registrations')
+        elif kind == 'register_op':
+            if op['reg'] not in W.real:
+                continue
+            W.real[op['reg']].register_op(op['name'], exact=op['exact'])
+            W.models[op['reg']].register_op(op['name'], (lambda t: False), known_types_exact=op['exact'])
+            st('register_ops')
         elif kind == 'new_glommer':
             W.add_glommer(op['id'], op['defaults'])
         elif kind == 'drop':
@@ -418,7 +432,7 @@ def run_history(case, ops, set_perm=None, lookups=True, drop_before_final=False,
                     st('ambiguous_lookups')
                 if obs not in allowed:
                     viols.append(_viol(W, case, op, obs, allowed, why, i))
-                elif not obs.startswith(('builtin:', 'unregistered')):
+                elif not obs.startswith(('builtin:', 'unregistered')) and op['lop'] in OPS:
                     ran, err = W.public_call(op['reg'], op['cls'], op['lop'])
                     st('public_api_confirmations')
                     if op['lop'] in ('get', 'iterate', 'assign', 'delete') and obs not in ran:
@@ -497,6 +511,10 @@ def _has_defaults(case, reg):
 def permuted_ops(case):
     """registrations in another order; registrations of the SAME (registry, type) keep their relative order"""
     rng = random.Random(case['perm_seed'])
+    if any(op['op'] == 'register_op' for op in case['ops']):
+        # (declaring an operation looks at the types known at that moment: registrations are not
+        # moved across it -- this variant then only drops the intermediate look-ups)
+        return [op for op in case['ops'] if op['op'] in ('register', 'new_glommer', 'register_op')]
     regs = [op for op in case['ops'] if op['op'] == 'register']
     others = [op for op in case['ops'] if op['op'] == 'new_glommer']
     order = list(range(len(regs)))
